@@ -79,12 +79,14 @@ var sdpAV = mediah.SDP(esgen.H264, true)
 // it are counted and handed to its injector.
 type target struct {
 	in       *sched.Injector
-	arrived  int64 // arrivals at the point (frames whose prefix was written)
-	passed   int64 // arrivals that went on to the payload
-	closedN  int64 // fired windows whose parked frame write went on (windows of one session are sequential)
-	late     int64 // windows that closed before their request went out (scheduler delay): not counted as non-trivial
-	inside   int64 // competing requests answered while the window was open
-	outlived int64 // competing requests whose answer came only after the window closed
+	arrived  int64      // arrivals at the point (frames whose prefix was written)
+	passed   int64      // arrivals that went on to the payload
+	closedN  int64      // fired windows whose parked frame write went on (windows of one session are sequential)
+	late     int64      // windows that closed before their request went out (scheduler delay): not counted as non-trivial
+	inside   int64      // competing requests answered while the window was open
+	outlived int64      // competing requests whose answer came only after the window closed
+	conv     *convWatch // when set: every frame is held at the point until the stream's demuxer has worked off what was published (bounded by grace)
+	convHeld int64      // arrivals that found the demuxer still behind
 }
 
 var reg struct {
@@ -107,7 +109,47 @@ func installHook() {
 	})
 }
 
+// demuxSeen counts, per demuxer, how often it came back to its queue
+// ("demux.before-pop": once at start, then once per packet worked off).
+var demuxSeen sync.Map // demuxer -> *int64
+
+// convWatch tells whether the converter goroutine of a stream (the RTP demuxer
+// that feeds the FLV / TS muxers) is done with everything the harness published.
+type convWatch struct {
+	demux  interface{}
+	pushed *int64
+}
+
+func newConvWatch(st *media.Stream, pushed *int64) *convWatch {
+	d, _, _ := media.VerifConverters(st)
+	return &convWatch{demux: d, pushed: pushed}
+}
+
+func (c *convWatch) seen() int64 {
+	if v, ok := demuxSeen.Load(c.demux); ok {
+		return atomic.LoadInt64(v.(*int64))
+	}
+	return 0
+}
+
+// caughtUp: the demuxer has worked off everything published so far.
+func (c *convWatch) caughtUp() bool { return c.seen() >= atomic.LoadInt64(c.pushed)+1 }
+
+// waitFor waits (at most d) until the demuxer has worked off what had been
+// published when the call began - the packet being written is among that.
+func (c *convWatch) waitFor(d time.Duration) {
+	want := atomic.LoadInt64(c.pushed) + 1
+	waitFor(d, func() bool { return c.seen() >= want })
+}
+
+func (c *convWatch) forget() { demuxSeen.Delete(c.demux) }
+
 func dispatch(point string, obj interface{}) {
+	if point == "demux.before-pop" {
+		v, _ := demuxSeen.LoadOrStore(obj, new(int64))
+		atomic.AddInt64(v.(*int64), 1)
+		return
+	}
 	if point != pointWrite {
 		return
 	}
@@ -125,6 +167,12 @@ func dispatch(point string, obj interface{}) {
 		return
 	}
 	atomic.AddInt64(&tg.arrived, 1)
+	if tg.conv != nil && !tg.conv.caughtUp() {
+		// the other goroutine that was woken by the same publish: let it finish with the
+		// packet whose prefix has just been written, then write the body
+		atomic.AddInt64(&tg.convHeld, 1)
+		tg.conv.waitFor(grace)
+	}
 	before := tg.in.FiredCount()
 	tg.in.Hook(point, obj)
 	if tg.in.FiredCount() > before {
@@ -182,6 +230,7 @@ type pktSpec struct {
 	Size int    `json:"size"` // length of the RTP/RTCP packet = length of the interleaved frame payload
 	Fill string `json:"fill"` // ramp | dollar | response | frame
 	Key  bool   `json:"key,omitempty"`
+	Pad  int    `json:"pad,omitempty"` // RTP padding octets (RFC 3550 §5.1: P bit, last octet = count), part of Size
 }
 
 const (
@@ -232,6 +281,31 @@ func fillBody(dst []byte, fill string, id uint32) {
 	}
 }
 
+func clampPad(pad, room int) int {
+	if pad > 255 {
+		pad = 255
+	}
+	if pad > room {
+		pad = room
+	}
+	if pad < 0 {
+		pad = 0
+	}
+	return pad
+}
+
+// padded appends RTP padding (RFC 3550 §5.1): the P bit is set, n-1 zero octets
+// and a last octet that counts the padding octets including itself.
+func padded(raw []byte, n int) []byte {
+	if n <= 0 {
+		return raw
+	}
+	raw[0] |= 0x20
+	raw = append(raw, make([]byte, n)...)
+	raw[len(raw)-1] = byte(n)
+	return raw
+}
+
 // buildPacket renders a spec. id makes every packet of a case unique (RTP
 // sequence number and timestamp, RTCP counters).
 func buildPacket(sp pktSpec, id uint32) *rtp.Packet {
@@ -239,19 +313,21 @@ func buildPacket(sp pktSpec, id uint32) *rtp.Packet {
 	switch sp.Ch {
 	case rtp.ChannelVideo:
 		// RFC 6184 §5.6 single NAL unit packet: non-IDR slice (type 1) or IDR (type 5), NRI 2 / 3
-		nal := make([]byte, size-12)
+		pad := clampPad(sp.Pad, size-12-5)
+		nal := make([]byte, size-12-pad)
 		fillBody(nal, sp.Fill, id)
 		nal[0] = 0x41
 		if sp.Key {
 			nal[0] = 0x65
 		}
 		raw := rtppack.Pkt{PT: 96, Marker: true, Seq: uint16(id), TS: id * 3000, SSRC: ssrc, Payload: nal}.Marshal()
-		return rtppack.ToIpchub(rtp.ChannelVideo, raw)
+		return rtppack.ToIpchub(rtp.ChannelVideo, padded(raw, pad))
 	case rtp.ChannelAudio:
-		au := make([]byte, size-16)
+		pad := clampPad(sp.Pad, size-16-1)
+		au := make([]byte, size-16-pad)
 		fillBody(au, sp.Fill, id)
 		raw := rtppack.Pkt{PT: 97, Marker: true, Seq: uint16(id), TS: id * 1024, SSRC: ssrc + 1, Payload: rtppack.AacHbr([][]byte{au})}.Marshal()
-		return rtppack.ToIpchub(rtp.ChannelAudio, raw)
+		return rtppack.ToIpchub(rtp.ChannelAudio, padded(raw, pad))
 	default:
 		return rtppack.ToIpchub(byte(sp.Ch), rtppack.SenderReport(ssrc+uint32(sp.Ch), 3900000000, id, id*3000, id, id*100))
 	}
@@ -280,8 +356,61 @@ type plan struct {
 	Windows   []window  `json:"windows,omitempty"`
 	Requests  []string  `json:"stress_requests,omitempty"` // stress: methods the requester goroutine cycles through while the publisher runs
 	WaitEvery int       `json:"stress_wait_every,omitempty"`
-	Backlog   *backlog  `json:"backlog,omitempty"` // backlog stress: Pkts is a cycle, Requests the method cycle
-	Cross     *cross    `json:"cross,omitempty"`   // cross-connection rounds: Transport is player B's, Pkts a cycle
+	Backlog   *backlog  `json:"backlog,omitempty"`         // backlog stress: Pkts is a cycle, Requests the method cycle
+	Cross     *cross    `json:"cross,omitempty"`           // cross-connection rounds: Transport is player B's, Pkts a cycle
+	UDP       string    `json:"udp_track,omitempty"`       // RTSP/TCP only: "video" | "audio" = this track is set up over UDP (RTP/AVP;unicast;client_port=), the other one interleaved
+	UDPFirst  bool      `json:"udp_setup_first,omitempty"` // the UDP track is set up first (then the session ends as a TCP player); otherwise last (it ends as a UDP player)
+}
+
+// udpLast: the last SETUP was the UDP one, so ipchub makes the session a UDP
+// player; packets of the interleaved track have no UDP address there.
+func (pl *plan) udpLast() bool { return pl.UDP != "" && !pl.UDPFirst }
+
+// udpChannel reports whether ipchub channel ch belongs to the track set up over UDP.
+func (pl *plan) udpChannel(ch int) bool {
+	return (pl.UDP == "video" && ch < 2) || (pl.UDP == "audio" && ch >= 2 && ch < 4)
+}
+
+// tcpCh is the RTP channel of a track that is set up interleaved.
+func (pl *plan) tcpCh() int {
+	if pl.UDP == "video" {
+		return rtp.ChannelAudio
+	}
+	return rtp.ChannelVideo
+}
+
+// drawMixed makes a share of the RTSP/TCP cases mixed-transport players.
+func drawMixed(t *rapid.T, pl *plan) {
+	k := rapid.IntRange(0, 9).Draw(t, "mixedTransports")
+	if k > 2 {
+		return
+	}
+	pl.UDP = rapid.SampledFrom([]string{"video", "audio"}).Draw(t, "udpTrack")
+	pl.UDPFirst = k == 2 // mostly the order that makes the session a UDP player
+	if pl.Audio[0] < 0 { // both tracks are set up
+		for _, pr := range channelPairs {
+			if pr != pl.Video {
+				pl.Audio = pr
+				break
+			}
+		}
+	}
+}
+
+// mediaCh is the RTP channel the sentinel and the fillers go out on: one that
+// reaches the client for sure (interleaved for a TCP player, UDP for a UDP player).
+func (pl *plan) mediaCh() int {
+	if pl.UDP == "" {
+		return rtp.ChannelVideo
+	}
+	udpRTP, tcpRTP := rtp.ChannelVideo, rtp.ChannelAudio
+	if pl.UDP == "audio" {
+		udpRTP, tcpRTP = rtp.ChannelAudio, rtp.ChannelVideo
+	}
+	if pl.udpLast() {
+		return udpRTP
+	}
+	return tcpRTP
 }
 
 func (pl *plan) rcvBuf() int {
@@ -292,6 +421,9 @@ func (pl *plan) rcvBuf() int {
 }
 
 func (pl *plan) wire(ch int) int {
+	if pl.udpChannel(ch) {
+		return -1
+	}
 	switch ch {
 	case 0, 1:
 		return pl.Video[ch]
@@ -391,6 +523,13 @@ func drawPkt(t *rapid.T, big, bursty bool) pktSpec {
 	default:
 		sp.Ch, sp.Size = rtp.ChannelAudioControl, rtcpSize
 	}
+	if sp.Ch == rtp.ChannelVideo || sp.Ch == rtp.ChannelAudio {
+		// a share of the media packets carries RTP padding (legal, e.g. from encrypting or
+		// fixed-block senders); what the player receives is the packet as published, padding included
+		if rapid.IntRange(0, 3).Draw(t, "padded") == 0 {
+			sp.Pad = rapid.SampledFrom([]int{1, 2, 3, 4, 8, 16, 100, 255}).Draw(t, "pad")
+		}
+	}
 	return sp
 }
 
@@ -398,6 +537,9 @@ func drawPkt(t *rapid.T, big, bursty bool) pktSpec {
 func genPlan(t *rapid.T, transport string, alwaysBursty bool) *plan {
 	pl := &plan{Transport: transport}
 	drawChannels(t, pl)
+	if transport == "tcp" {
+		drawMixed(t, pl)
+	}
 	// a bursty case: mostly large packets, hardly any waiting, so that the 128 KiB
 	// connection buffer overflows while frames and responses are written
 	bursty := alwaysBursty
@@ -410,8 +552,8 @@ func genPlan(t *rapid.T, transport string, alwaysBursty bool) *plan {
 	}
 	for i := 0; i < n; i++ {
 		sp := drawPkt(t, true, bursty)
-		if i == 0 { // at least one packet reaches the session whatever was set up
-			sp.Ch = rtp.ChannelVideo
+		if i == 0 { // at least one packet is on an interleaved channel whatever was set up
+			sp.Ch = pl.tcpCh()
 			sp.Size = clampSize(sp.Ch, sp.Size)
 		}
 		pl.Pkts = append(pl.Pkts, sp)
@@ -513,7 +655,7 @@ func (e *expectation) published(wire int, data []byte, must bool) {
 		return
 	}
 	e.mu.Lock()
-	e.perWire[wire] = append(e.perWire[wire], data)
+	e.perWire[wire] = append(e.perWire[wire], data) // callers pass a private copy: the published object is shared with the server
 	e.must[wire] = append(e.must[wire], must)
 	e.mu.Unlock()
 }
@@ -694,6 +836,16 @@ type env struct {
 	sentinel   []byte
 	maxBurst   int
 	burst      int
+	pushed     int64       // packets handed to the stream (counted before the call)
+	pubs       []pubRec    // every published object with its bytes at publish time
+	udp        *udpRecv    // mixed transports: where the UDP track arrives
+	udpExp     [2][][]byte // what was published on the UDP track: [0] RTP, [1] RTCP
+}
+
+// pubRec: a published packet object and a private copy of its bytes.
+type pubRec struct {
+	p    *rtp.Packet
+	orig []byte
 }
 
 func (e *env) publish(sp pktSpec, must bool) []byte {
@@ -703,7 +855,16 @@ func (e *env) publish(sp pktSpec, must bool) []byte {
 
 func (e *env) emit(sp pktSpec, p *rtp.Packet, must bool) []byte {
 	w := e.pl.wire(sp.Ch)
-	e.exp.published(w, p.Data, must)
+	orig := append([]byte(nil), p.Data...)
+	if e.pl.udpLast() {
+		must = false // a UDP player: ipchub has no address for the interleaved track and drops it
+	}
+	e.exp.published(w, orig, must)
+	e.pubs = append(e.pubs, pubRec{p, orig})
+	if e.pl.udpChannel(sp.Ch) {
+		e.udpExp[sp.Ch&1] = append(e.udpExp[sp.Ch&1], orig)
+	}
+	atomic.AddInt64(&e.pushed, 1)
 	if w >= 0 {
 		e.pubCount++
 		e.burst += len(p.Data) + 4
@@ -712,7 +873,23 @@ func (e *env) emit(sp pktSpec, p *rtp.Packet, must bool) []byte {
 		}
 	}
 	e.st.WriteRtpPacket(p)
-	return p.Data
+	return orig
+}
+
+// checkPublished: once the stream's converters have worked everything off, the
+// packet objects the harness published must still hold the bytes they were
+// published with - they are shared by every player's delivery goroutine, and a
+// change in place (length or content) tears whatever frame is being written.
+func (e *env) checkPublished() *verdict {
+	if e.tg != nil && e.tg.conv != nil {
+		waitFor(2*time.Second, e.tg.conv.caughtUp)
+	}
+	for i, r := range e.pubs {
+		if len(r.p.Data) != len(r.orig) || !bytes.Equal(r.p.Data, r.orig) {
+			return &verdict{"published-packet-changed", fmt.Sprintf("packet #%d (channel %d, %d bytes, %s) was changed in place after it was handed to the stream: now %d bytes, %s", i, r.p.Channel, len(r.orig), evid.Hex(r.orig), len(r.p.Data), evid.Hex(r.p.Data))}
+		}
+	}
+	return nil
 }
 
 func (e *env) sentinelBytes() []byte {
@@ -812,10 +989,10 @@ func (e *env) runSteps() *verdict {
 // interleaved media lazily, on a later write) until the sentinel and every
 // response arrived.
 func (e *env) drain(allAnswered func() bool) bool {
-	sp := pktSpec{Ch: rtp.ChannelVideo, Size: 40, Fill: "ramp"}
+	sp := pktSpec{Ch: e.pl.mediaCh(), Size: 40, Fill: "ramp"}
 	p := buildPacket(sp, 0x00ffff00) // an id no plan packet or filler reaches
 	e.smu.Lock()
-	e.sentinel = p.Data
+	e.sentinel = append([]byte(nil), p.Data...)
 	e.smu.Unlock()
 	e.emit(sp, p, true)
 	deadline := time.Now().Add(bound(e.pl.Transport))
@@ -830,7 +1007,7 @@ func (e *env) drain(allAnswered func() bool) bool {
 			return false
 		}
 		if n%8 == 7 {
-			e.publish(pktSpec{Ch: rtp.ChannelVideo, Size: 24, Fill: "ramp"}, false)
+			e.publish(pktSpec{Ch: e.pl.mediaCh(), Size: 24, Fill: "ramp"}, false)
 		}
 		time.Sleep(250 * time.Microsecond)
 	}
